@@ -294,7 +294,10 @@ def run_strings(unit):
         d = sc.dir
         lines = ["proto t", ""]
         for k, (src, val) in enumerate(strs):
-            lines.append('const S%d = "%s"' % (k, src))
+            # every third string is followed, on the same line, by a comment that itself contains quotes;
+            # every fifth shares its line with the next statement
+            tail = ' // the peer says "ok" and "bye"' if k % 3 == 1 else ('; const T%d = "t"' % k if k % 5 == 2 else "")
+            lines.append('const S%d = "%s"%s' % (k, src, tail))
         for k, sp in enumerate(("true", "false", "yes", "no")):
             lines.append("const B%d = %s" % (k, sp))
         text = "\n".join(lines) + "\n"
